@@ -405,8 +405,11 @@ impl<'a, R: RealNumberInternalTrait> Interpreter<'a, R> {
             Primitive::Real(number_literal) => Value::Number(Number::Real(
                 R::from(number_literal.parse::<f64>().unwrap()).unwrap(),
             )),
-            // TODO: apply gcd here.
-            Primitive::Rational(a, b) => Value::Number(Number::Rational(*a, *b as i32)),
+            Primitive::Rational(a, b) => Value::Number(
+                Number::exact_ratio(*a as i128, *b as i128).unwrap_or_else(|| {
+                    Number::Real(R::from(*a).unwrap() / R::from(*b).unwrap())
+                }),
+            ),
         })
     }
 
